@@ -118,18 +118,37 @@ impl World {
         let id = i as u64 + 1;
         // C02: one leader per term
         if post.role == StateRole::Leader {
+            let durable = {
+                let d = &self.nodes[i].disk;
+                d.hs.term == post.term && d.hs.vote == id
+            };
             match self.ghost.leader_of.get(&post.term) {
                 Some(l) if *l != id => {
+                    // a leadership that existed in memory only (a single-voter node elects
+                    // itself before its vote is persisted and crashed before the write) gets
+                    // its own signature
+                    let kind = if self.ghost.leader_volatile.contains(&post.term) {
+                        "two leaders in one term [the first never persisted its self-vote: single-voter self-election lost in a crash]"
+                    } else {
+                        "two leaders in one term"
+                    };
                     ctx.v(
                         "C02",
-                        "two leaders in one term",
+                        kind,
                         format!("node {} and node {} are both leader of term {}", l, id, post.term),
                     );
                 }
-                Some(_) => {}
+                Some(_) => {
+                    if durable {
+                        self.ghost.leader_volatile.remove(&post.term);
+                    }
+                }
                 None => {
                     ctx.stat(Stat::LeadersSeen);
                     self.ghost.leader_of.insert(post.term, id);
+                    if !durable {
+                        self.ghost.leader_volatile.insert(post.term);
+                    }
                 }
             }
             // C03(a): leader completeness
@@ -589,7 +608,23 @@ impl World {
                     let l = self.nodes[i].live.as_mut().unwrap();
                     match m.get_msg_type() {
                         MessageType::MsgAppendResponse => {
-                            responded = Some(m.from);
+                            // an append response ends the outstanding probe only if the leader
+                            // acts on it: an acknowledgement beyond `matched`, or a rejection
+                            // of the probe itself (or one that asks for a snapshot); stale and
+                            // duplicated responses change nothing
+                            let p = pre_flow.iter().find(|p| p.id == m.from);
+                            let fresh = match p {
+                                None => true,
+                                Some(p) if !m.reject => m.index > p.matched,
+                                Some(p) => {
+                                    m.request_snapshot != 0
+                                        || (p.state == ProgressState::Replicate && m.index >= p.matched)
+                                        || (p.state != ProgressState::Replicate && p.next_idx == m.index + 1)
+                                }
+                            };
+                            if fresh {
+                                responded = Some(m.from);
+                            }
                             if !m.reject {
                                 if let Some(f) = l.flow.get_mut(&m.from) {
                                     if m.index > f.acked {
